@@ -13,6 +13,12 @@ import re
 
 import z3
 
+
+def _simp(e):
+    # deterministic simplification (see symx.core._simp)
+    return z3.simplify(e, sort_disjunctions=False)
+
+
 ACC, REJ, ERR = 0, 1, 2
 VERDICT = {ACC: "ACC", REJ: "REJ", ERR: "ERR"}
 
@@ -219,7 +225,7 @@ def step(dims, shape, B, args=None, tp=None):
             k = key_of(d)
             p, v = env.get(k, (z3.BoolVal(False), z3.IntVal(0)))
             steps.append((z3.Or(skip, z3.Not(p), v == s), z3.BoolVal(False)))
-            env[k] = (z3.simplify(z3.Or(p, z3.Not(skip))), z3.simplify(z3.If(p, v, s)))
+            env[k] = (_simp(z3.Or(p, z3.Not(skip))), _simp(z3.If(p, v, s)))
         elif d["kind"] == "expr":
             allp, val = eval_expr(d["expr"], env, args)
             steps.append((z3.Or(skip, z3.Not(allp), val == s), z3.And(z3.Not(skip), z3.Not(allp))))
@@ -255,7 +261,7 @@ def step(dims, shape, B, args=None, tp=None):
         strict = z3.If(err, ERR, z3.If(ok, strict, REJ))
     R = z3.If(_And(ok for ok, _ in steps), ACC, REJ)
     E = _Or(err for _, err in steps)
-    return dict(strict=z3.simplify(strict), R=z3.simplify(R), E=z3.simplify(E),
+    return dict(strict=_simp(strict), R=_simp(R), E=_simp(E),
                 B=Bindings(env, venv))
 
 
